@@ -183,6 +183,11 @@ def cases(tier, salts):
         for sc in (False, True):
             for pr in ((False, True) if tier == "thorough" else (False,)):
                 out.append({"k": "arg", "faults": [f1, f2], "scaling": sc, "proj": pr})
+    # the bound-gap requirement lives in the coordinates the solver works in: with internal scaling the box is the unit box
+    out.append({"k": "scaledgap", "what": "too_large_rhobeg", "rhobeg": 0.6, "width": [10.0, 10.0], "expect_error": True})
+    out.append({"k": "scaledgap", "what": "boundary_rhobeg", "rhobeg": 0.4, "width": [10.0, 10.0], "expect_error": False})
+    out.append({"k": "scaledgap", "what": "narrow_raw_box", "rhobeg": None, "width": [0.1, 3.0], "expect_error": False})
+    out.append({"k": "scaledgap", "what": "narrow_raw_box_rhobeg", "rhobeg": 0.3, "width": [0.05, 0.07], "expect_error": False})
     for key in ("tr_radius.eta3", "", "model.abs_tol ", "MODEL.ABS_TOL", "restarts", 7):
         out.append({"k": "unknown", "key": key})
     out.append({"k": "audit"})
@@ -358,6 +363,21 @@ def check_case(case):
             v.append(("invalid_rejected", "%s: invalid arguments but solve ran (flag %r, %s)" % (what, res.flag, res.msg)))
         tags.append("input_error" if res.flag == -1 else "ran")
         tags.append("nfaults=%d" % len(case["faults"]))
+        return v, tags
+    if case["k"] == "scaledgap":
+        w = np.array(case["width"])
+        lo = np.array([-1.2, 1.0]) - 0.4 * w
+        kw = {} if case["rhobeg"] is None else {"rhobeg": case["rhobeg"], "rhoend": 1e-4}
+        what = "scaling_within_bounds with box widths %s and rhobeg=%s" % (case["width"], case["rhobeg"])
+        out, res, ncalls = _solve(kw, scaling=True, bounds=(lo, lo + w))
+        if out != "returned":
+            return [("no_exception", "%s: solve %s %s: %s" % (what, out, type(res).__name__, str(res)[:200]))], tags
+        _wellformed(res, ncalls, v, what)
+        if case["expect_error"] and res.flag != -1:
+            v.append(("invalid_rejected", "%s: the scaled gap (1.0) is below 2*rhobeg but solve ran (flag %r)" % (what, res.flag)))
+        if not case["expect_error"] and res.flag == -1:
+            v.append(("valid_accepted", "%s is valid (rhobeg refers to the scaled variables) but was rejected: %s" % (what, res.msg)))
+        tags.append("input_error" if res.flag == -1 else "ran")
         return v, tags
     if case["k"] == "unknown":
         out, res, ncalls = _solve({}, up={case["key"]: 1.0})
